@@ -101,9 +101,9 @@ theorem directiveDefT (τ : Trivia) (hτ : ∀ q, Ws (τ q)) (d : DirectiveDef) 
   have hdA : Hd (· = '@') tA := hA ▸ hd_tk (hd_cons _ rfl)
   have hdN : Hd nameStart tN := hN ▸ hd_tk (hd_of_validName hname)
   have hdO : Hd (· = 'o') tO := hO ▸ hd_tk (hd_cons _ rfl)
-  have hdL : Hd nameStart tL := by
-    rw [← hL]; simp only [rNames]
-    exact Hd.append (hd_tk (locWords_ok _ (hlv' l0 (List.mem_cons_self ..))).1) _
+  have hdL : Hd (· = '|') tL := by
+    rw [← hL]; simp only [rNamesL]
+    exact Hd.append (hd_tk (P := (· = '|')) (hd_cons [] rfl)) _
   have hdRO : Hd nameStart (tR ++ (tO ++ tL)) := by
     rw [← hR]
     cases d.repeatable with
@@ -141,7 +141,7 @@ theorem directiveDefT (τ : Trivia) (hτ : ∀ q, Ws (τ q)) (d : DirectiveDef) 
   obtain ⟨oR, rR, hoR, hokR⟩ := repT hτ d.repeatable (hR ▸ g5) (by rw [hR]; exact g6) hdO
   rw [hR] at rR
   have rO := kwT hτ look_KEYWORD_on (hO ▸ g6) (bad := fun _ => False)
-    (by rw [hO]; exact Nxt.of_hd_sep g7 hdL (fun c hc => ⟨nameStart_not_trivia hc, id⟩))
+    (by rw [hO]; exact Nxt.of_hd_sep g7 hdL (by rintro c rfl; exact ⟨by decide, id⟩))
   rw [hO] at rO
   obtain ⟨prL, rL, hokL, hbL⟩ := locsT τ hτ l0 ls hlv' (bad := tdBad)
     (Or.inr (Or.inr (Or.inr (Or.inr (Or.inl rfl))))) (hL ▸ g7) (by rw [hL]; exact hn)
